@@ -7,6 +7,7 @@ use std::sync::Arc;
 pub fn run(kind: &str, i: &Input) -> String {
     match kind {
         "vm_op" => vm_op(i),
+        "asm_bytes" => asm_bytes(i),
         "types_words" => types_words(i),
         "types_bytes" => types_bytes(i),
         "types_roundtrip" => types_roundtrip(i),
@@ -99,7 +100,14 @@ pub fn op_by_name(name: &str, imm: i64) -> Op {
         "Access::PredicateExists" => Access::PredicateExists.into(),
         "Compute::Compute" => Compute::Compute.into(),
         "Compute::ComputeEnd" => Compute::ComputeEnd.into(),
-        _ => panic!("unknown op {name}"),
+        "Crypto::Sha256" => Crypto::Sha256.into(),
+        "Crypto::VerifyEd25519" => Crypto::VerifyEd25519.into(),
+        "Crypto::RecoverSecp256k1" => Crypto::RecoverSecp256k1.into(),
+        "StateRead::KeyRange" => StateRead::KeyRange.into(),
+        "StateRead::KeyRangeExtern" => StateRead::KeyRangeExtern.into(),
+        "StateRead::PostKeyRange" => StateRead::PostKeyRange.into(),
+        "StateRead::PostKeyRangeExtern" => StateRead::PostKeyRangeExtern.into(),
+        _ => panic!("REPLAY-HARNESS: unknown op {name}"),
     }
 }
 
@@ -215,5 +223,54 @@ fn types_node_edges(i: &Input) -> String {
     match p.node_edges(ix) {
         None => "result=none\n".into(),
         Some(s) => format!("result=some\nedges={}\n", s.iter().map(|e| e.to_string()).collect::<Vec<_>>().join(" ")),
+    }
+}
+
+fn asm_bytes(i: &Input) -> String {
+    use essential_asm::{effects, from_bytes, to_bytes, Opcode, ToOpcode};
+    match get(i, "fn") {
+        "opcode" => {
+            let b: u8 = get(i, "byte").parse().unwrap();
+            match Opcode::try_from(b) {
+                Ok(oc) => format!("result=ok\nopcode={oc:?}\nbyte={}\n", u8::from(oc)),
+                Err(e) => format!("result=err\nerr={e:?}\n"),
+            }
+        }
+        "from_bytes" | "parse_one" => {
+            let bs = bytes(get(i, "bytes"));
+            let res: Vec<_> = from_bytes(bs.clone()).take(bs.len() + 2).collect();
+            let mut out = String::new();
+            let mut ops = vec![];
+            let mut dbg = vec![];
+            for r in &res {
+                match r {
+                    Ok(op) => { ops.push(*op); dbg.push(format!("{op:?}")); }
+                    Err(e) => { dbg.push(format!("ERR:{e:?}")); break; }
+                }
+            }
+            out += &format!("result=ok\nitems={}\n", dbg.join(";"));
+            out += &format!("reencoded={}\n", fmt_bytes(&to_bytes(ops.iter().copied()).collect::<Vec<u8>>()));
+            out += &format!("opcodes={}\n", ops.iter().map(|o| u8::from(o.to_opcode()).to_string()).collect::<Vec<_>>().join(" "));
+            out
+        }
+        "roundtrip" => {
+            let op = op_by_name(get(i, "op"), get(i, "imm").parse().unwrap_or(0));
+            let bs: Vec<u8> = to_bytes([op]).collect();
+            let back: Vec<_> = from_bytes(bs.clone()).collect();
+            format!("result=ok\nbytes={}\nback={back:?}\nop={op:?}\n", fmt_bytes(&bs))
+        }
+        "effects_bytes" => {
+            let bs = bytes(get(i, "bytes"));
+            let e = effects::Effects::from_bits_truncate(get(i, "effects").parse().unwrap());
+            format!("result=ok\nvalue={}\n", effects::bytes_contains_any(&bs, e))
+        }
+        "analyze" => {
+            let ops: Vec<Op> = get(i, "ops").split(';').filter(|s| !s.is_empty()).map(|s| {
+                let (n, imm) = s.rsplit_once(':').unwrap_or((s, "0"));
+                op_by_name(n, imm.parse().unwrap_or(0))
+            }).collect();
+            format!("result=ok\nbits={}\n", effects::analyze(&ops).bits())
+        }
+        f => format!("unknown_fn={f}\n"),
     }
 }
